@@ -21,9 +21,12 @@ AllOps ==
   \cup {O(c, op, "", 0, 0, "", 0) : c \in Ctxs, op \in {"iter", "release", "pop", "top", "release_stack", "cleanup",
                                                             "release_dunder", "release_stack_dunder", "pop_all"}}
   \cup {O(c, "cv_set", "", b, 0, "", 0) : c \in Ctxs, b \in Boxes}
+  \cup {O(c, "cvd_set", "", b, 0, k, 0) : c \in Ctxs, b \in Boxes, k \in CvdKinds}
+  \cup {O(c, "cvd_reset", "", 0, 0, k, 0) : c \in Ctxs, k \in CvdKinds}
   \cup {O(c, "mw_enter", nm, b, v, k, 0) : c \in Ctxs, nm \in Names, b \in Boxes, v \in {0, 3}, k \in MwForms}
   \cup {O(c, "mw_enter", "", b, v, k, 0) : c \in Ctxs, b \in MwPush, v \in {0, 3}, k \in MwForms}
   \cup {O(c, "mw_close", "", 0, v, "", 0) : c \in Ctxs, v \in 0..2}
+  \cup {O(c, "mw_abandon", "", 0, 0, "", ch) : c \in Ctxs, ch \in Ctxs}
   \cup {O(c, "mkmgr", "", 0, 0, k, 0) : c \in Ctxs, k \in MgrForms}
   \cup {O(c, "mgr_append", "", 0, 0, k, 0) : c \in Ctxs, k \in {"local", "stack"}}
   \cup {O(c, "mw", nm, b, v, k, 0) : c \in Ctxs, nm \in Names, b \in Boxes, v \in MwVariants, k \in MwForms}
